@@ -30,6 +30,28 @@ PICKS = [
  ("altair.GetApplicableAttestationParticipationFlags", "inclusionDelay == spec.MIN_ATTESTATION_INCLUSION_DELAY", "timely head: inclusion_delay == MIN_ATTESTATION_INCLUSION_DELAY"),
  ("deneb.GetApplicableAttestationParticipationFlags", "inclusionDelay == spec.MIN_ATTESTATION_INCLUSION_DELAY", "timely head: inclusion_delay == MIN_ATTESTATION_INCLUSION_DELAY"),
  # ---- validator predicates
+ ("common.ExtraData.View", "len(otx) > MAX_EXTRA_DATA_BYTES", "extra_data: ByteList[MAX_EXTRA_DATA_BYTES]: exactly MAX bytes is valid (refuse >)"),
+ ("common.EpochsContext.GetBeaconCommittee", "index >= CommitteeIndex(epc.Spec.MAX_COMMITTEES_PER_SLOT)", "committee index < MAX_COMMITTEES_PER_SLOT"),
+ ("common.EpochsContext.GetBeaconCommittee", "index >= CommitteeIndex(len(slotComms))", "committee index < get_committee_count_per_slot"),
+ ("common.IndexedSyncCommittee.Subcommittee", "subnet >= SYNC_COMMITTEE_SUBNET_COUNT", "subcommittee index < SYNC_COMMITTEE_SUBNET_COUNT"),
+ ("phase0.IsValidGenesisState", "genTime < spec.MIN_GENESIS_TIME", "is_valid_genesis_state: genesis_time >= MIN_GENESIS_TIME"),
+ ("phase0.IsValidGenesisState", "activeCount >= uint64(spec.MIN_GENESIS_ACTIVE_VALIDATOR_COUNT)", "is_valid_genesis_state: active validators >= MIN_GENESIS_ACTIVE_VALIDATOR_COUNT (exactly MIN is enough)"),
+ ("phase0.ComputeSubnetForAttestation", "committeeIndex >= maxCommitteeIndex", "committee index is below committees_per_slot * SLOTS_PER_EPOCH"),
+ ("phase0.ProcessEth1DataReset", "epc.NextEpoch.Epoch % spec.EPOCHS_PER_ETH1_VOTING_PERIOD == 0", "eth1 votes reset when the NEXT epoch starts a voting period"),
+ ("phase0.ProcessHistoricalRootsUpdate", "epc.NextEpoch.Epoch % spec.SlotToEpoch(spec.SLOTS_PER_HISTORICAL_ROOT) == 0", "historical batch appended when the NEXT epoch is a multiple of SLOTS_PER_HISTORICAL_ROOT // SLOTS_PER_EPOCH"),
+ ("capella.ProcessHistoricalSummariesUpdate", "epc.NextEpoch.Epoch % spec.SlotToEpoch(spec.SLOTS_PER_HISTORICAL_ROOT) == 0", "historical summary appended when the NEXT epoch is a multiple of SLOTS_PER_HISTORICAL_ROOT // SLOTS_PER_EPOCH"),
+ ("capella.ProcessExecutionPayload", "executionPayload.ParentHash != parent.BlockHash", "payload.parent_hash == state.latest_execution_payload_header.block_hash"),
+ ("capella.ProcessExecutionPayload", "executionPayload.PrevRandao != expectedMix", "payload.prev_randao == get_randao_mix(state, current_epoch)"),
+ ("capella.ProcessExecutionPayload", "executionPayload.Timestamp != expectedTime", "payload.timestamp == compute_timestamp_at_slot(state, state.slot)"),
+ ("phase0.ValidateIndexedAttestationSignature", "len(pubkeys) <= 0", "an indexed attestation without attesters is invalid"),
+ ("common.Epoch.Previous", "e == GENESIS_EPOCH", "get_previous_epoch: GENESIS_EPOCH has no predecessor (returns itself)"),
+ ("common.Slot.Previous", "s == GENESIS_SLOT", "slot 0 has no predecessor"),
+ ("common.ApplyDeltas", "uint64(len(deltas.Penalties)) != length", "one penalty per validator"),
+ ("common.ApplyDeltas", "uint64(len(deltas.Rewards)) != length", "one reward per validator"),
+ ("common.ProposersEpoch.GetBeaconProposer", "epoch != epc.Epoch", "proposers are known for the epoch they were computed for only"),
+ ("common.PostSlotTransition", "slot != benv.Slot", "block.slot == state.slot"),
+ ("common.ProcessSlot", "latestHeader.StateRoot == (Root{})", "the previous state root is filled into the latest header when it is still zeroed"),
+ ("common.BeaconBlockEnvelope.VerifySignatureVersioned", "b.ProposerIndex != proposer", "the signature is checked against the key of block.proposer_index"),
  ("phase0.IsActive", "activationEpoch > epoch", "is_active_validator: activation_epoch <= epoch (refuse >)"),
  ("phase0.IsActive", "epoch >= exitEpoch", "is_active_validator: epoch < exit_epoch (refuse >=)"),
  ("common.FlatValidator.IsActive", "v.ActivationEpoch <= epoch", "is_active_validator: activation_epoch <= epoch"),
@@ -248,10 +270,11 @@ def dump():
         line, _, rest = line.partition("\t")
         absform, _, rest2 = rest.partition("\t")
         resform, _, rest3 = rest2.partition("\t")
-        ropform, _, mkform = rest3.partition("\t")
+        ropform, _, rest4 = rest3.partition("\t")
+        mkform, _, raform = rest4.partition("\t")
         m = re.match(r"^(\S+)\s+(\S+)\s+P=(.*?)\s+// (.*)$", line)
         if m:
-            rows.append((m.group(1), m.group(2), m.group(3).strip(), m.group(4).strip(), absform.strip(), resform.strip(), ropform.strip(), mkform.strip()))
+            rows.append((m.group(1), m.group(2), m.group(3).strip(), m.group(4).strip(), absform.strip(), resform.strip(), ropform.strip(), mkform.strip(), raform.strip()))
     return rows
 
 def parse_poly(s):
@@ -292,7 +315,7 @@ def main():
             print("PICK NOT FOUND:", fn, text, file=sys.stderr)
             missing += 1
             continue
-        _, op, ps, _, absform, resform, ropform, mkform = cands[0]
+        _, op, ps, _, absform, resform, ropform, mkform, raform = cands[0]
         poly = parse_poly(ps)
         k = poly.pop("", 0)
         # atoms of monomials (split products)
@@ -322,8 +345,8 @@ def main():
             regs.append(r)
             coefs.append(c)
         count = len(cands)
-        out.append('\t{fn: %s, atoms: []string{%s}, op: %s, k: %d, coefs: []int64{%s}, count: %d, abs: %s, res: %s, rop: %s, mk: %s, spec: %s},' % (
-            gq(fn), ", ".join(gq(r) for r in regs), gq(op), k, ", ".join(str(c) for c in coefs), count, gq(absform), gq(resform), gq(ROP), gq(mkform), gq(spec)))
+        out.append('\t{fn: %s, atoms: []string{%s}, op: %s, k: %d, coefs: []int64{%s}, count: %d, abs: %s, res: %s, ra: %s, rop: %s, mk: %s, spec: %s},' % (
+            gq(fn), ", ".join(gq(r) for r in regs), gq(op), k, ", ".join(str(c) for c in coefs), count, gq(absform), gq(resform), gq(raform), gq(ROP), gq(mkform), gq(spec)))
     for fn, typ, op, count, spec in TYPED:
         out.append('\t{fn: %s, typ: %s, op: %s, count: %d, spec: %s},' % (gq(fn), gq(typ), gq(op), count, gq(spec)))
     out.append("}")
